@@ -6,7 +6,10 @@
 
 use std::io::{BufRead, BufReader};
 use std::sync::Arc;
+#[cfg(not(feature = "verif-hooks"))]
 use std::sync::atomic::{AtomicBool, AtomicI32, AtomicU8, AtomicU64, Ordering};
+#[cfg(feature = "verif-hooks")]
+use std::sync::atomic::Ordering;
 
 // The hot-path snapshot type + its default constants are core; they live in
 // `config_snapshot` (free of this module's control/stats coupling). Re-exported
@@ -21,6 +24,8 @@ use srtla_core::priority::CriticalWindow;
 
 use crate::control::dispatch;
 use crate::stats::SharedStats;
+#[cfg(feature = "verif-hooks")]
+use crate::verif_hooks::atomic::{AtomicBool, AtomicI32, AtomicU8, AtomicU64};
 
 /// Dynamic configuration that can be modified at runtime.
 /// Uses atomic types for lock-free concurrent access.
